@@ -316,7 +316,10 @@ def illtyped_family():
                 stmt = '%s %s %s >= 0.0;' % (l, op, r)
             out.append(('fy_%03d' % n, [decl + stmt + '\n'], None))
     for k, stmt in enumerate(['x < 5.0 | y >= 1.0;', 'x != 0.0 | b;', 'x == 0.0 | b;', 'b | x;', '!x;', 'b -> x;', 'x ^ y;', 'k + 1.0 >= 0.0;', 's <= 1.0;',
-                              'k.f | b;', 'b & c & x;', 'x + b >= 1.0;', 'x * s >= 1.0;', '(b) >= 1.0;', 'b == x;', 'k == x;', 's == k;']):
+                              'k.f | b;', 'b & c & x;', 'x + b >= 1.0;', 'x * s >= 1.0;', '(b) >= 1.0;', 'b == x;', 'k == x;', 's == k;',
+                              # chains of divisions (one n-ary division for the parser): a zero / a variable among the later divisors
+                              'x / 2.0 / 0.0 >= 1.0;', 'x / 0.0 / 2.0 >= 1.0;', '(x / 2.0) / 0.0 >= 1.0;', 'x / 2.0 / 4.0 / 0.0 >= 1.0;',
+                              'x / 2.0 / y >= 1.0;', '8.0 / 2.0 / 0.0 <= x;', 'x / 2.0 / 4.0 >= 1.0;']):
         out.append(('fy_trap_%d' % k, [decl + stmt + '\n'], None))
         out.append(('fy_trap_rule_%d' % k, [decl + 'predicate P() { %s }\ngoal g = new P();\n' % stmt], None))
     return out
@@ -479,6 +482,27 @@ def unify_family():
                 L.append('fact f0 = new P(x:%s%s);' % (a1, ', y:w' if two else ''))
                 L.append('goal g0 = new P(x:%s%s);' % (a2, ', y:z' if two else ''))
                 out.append(('fu_%s_%d%s' % (ptype, k, '_2' if two else ''), ['\n'.join(L) + '\n'], ok))
+    return out
+
+
+def strict_tie_family():
+    """C01: a strict relation that is created AFTER a propagation in which a non-strict bound with the same constant became
+    known (inside the rule of a goal, in a part read after a solve, in a disjunct): the solution must lie strictly beyond the
+    bound; both directions, over one variable and over a difference; (name, parts, True)"""
+    out = []
+    for op, nonstrict in (('>', '>='), ('<', '<=')):
+        for shape in ('one', 'diff'):
+            decl = 'real x;' if shape == 'one' else 'real x; real y;'
+            lhs = 'x' if shape == 'one' else 'x - y'
+            bound = '%s %s 5.0;' % (lhs, nonstrict)
+            box = ('x >= -50.0; x <= 50.0;' if shape == 'one' else 'x >= -50.0; x <= 50.0; y >= -50.0; y <= 50.0;')
+            params = '(real v)' if shape == 'one' else '(real v, real w)'
+            body = 'v %s 5.0;' % op if shape == 'one' else 'v - w %s 5.0;' % op
+            args = 'v:x' if shape == 'one' else 'v:x, w:y'
+            head = '%s %s %s' % (decl, box, bound)
+            out.append(('fq_%s_%s_rule' % ('gt' if op == '>' else 'lt', shape), [head + '\npredicate P%s { %s }\ngoal g = new P(%s);\n' % (params, body, args)], True))
+            out.append(('fq_%s_%s_then' % ('gt' if op == '>' else 'lt', shape), [head + '\n', '%s %s 5.0;\n' % (lhs, op)], True))
+            out.append(('fq_%s_%s_disj' % ('gt' if op == '>' else 'lt', shape), [head + '\n{ %s %s 5.0; } or { %s %s 5.0; %s %s 6.0; }\n' % (lhs, op, lhs, op, lhs, nonstrict if op == '<' else '<=')], True))
     return out
 
 
